@@ -8,8 +8,14 @@ package zenodb
 // calls, so behaviour and timing of a normal build are unchanged.
 
 import (
+	"bufio"
+	"encoding/binary"
 	"fmt"
+	"hash/crc32"
+	"io"
+	"io/ioutil"
 	"os"
+	"path/filepath"
 	"strconv"
 	"strings"
 	"sync"
@@ -162,17 +168,119 @@ func (db *DB) VerifTableOffsets(table string) common.OffsetsBySource {
 	return out
 }
 
-// VerifStreamEnd returns the offset just past the last valid entry of the
-// named stream's WAL.
-func (db *DB) VerifStreamEnd(stream string) (wal.Offset, error) {
-	db.tablesMutex.RLock()
-	w := db.streams[strings.ToLower(stream)]
-	db.tablesMutex.RUnlock()
-	if w == nil {
-		return nil, fmt.Errorf("no such stream %v", stream)
+type verifTableState struct {
+	processed common.OffsetsBySource
+	sent      int64
+	applied   int64
+}
+
+var verifTables = make(map[*table]*verifTableState)
+
+func verifTableStateFor(t *table) *verifTableState {
+	st := verifTables[t]
+	if st == nil {
+		st = &verifTableState{processed: make(common.OffsetsBySource)}
+		verifTables[t] = st
 	}
-	_, offset, err := w.Latest()
-	return offset, err
+	return st
+}
+
+// verifProcessed records that the table's ingest loop has completely handled
+// the WAL entry ending at offset (inserted, skipped or ignored it).
+func verifProcessed(t *table, offset wal.Offset, source int) {
+	verifMx.Lock()
+	st := verifTableStateFor(t)
+	if offset != nil && offset.After(st.processed[source]) {
+		st.processed[source] = append(wal.Offset(nil), offset...)
+	}
+	verifMx.Unlock()
+}
+
+func verifSent(rs *rowStore) {
+	verifMx.Lock()
+	verifTableStateFor(rs.t).sent++
+	verifMx.Unlock()
+}
+
+func verifApplied(rs *rowStore) {
+	verifMx.Lock()
+	verifTableStateFor(rs.t).applied++
+	verifMx.Unlock()
+}
+
+// VerifTableProgress returns, for the named table, the WAL offsets (by source)
+// up to which its ingest loop has handled its stream, and how many inserts were
+// handed to / applied by its row store. The table is quiescent with respect to
+// a stream end E iff processed >= E and sent == applied.
+func (db *DB) VerifTableProgress(table string) (processed common.OffsetsBySource, sent int64, applied int64) {
+	t := db.getTable(table)
+	if t == nil {
+		return nil, 0, 0
+	}
+	verifMx.Lock()
+	defer verifMx.Unlock()
+	st := verifTables[t]
+	if st == nil {
+		return nil, 0, 0
+	}
+	processed = make(common.OffsetsBySource, len(st.processed))
+	for source, offset := range st.processed {
+		processed[source] = offset
+	}
+	return processed, st.sent, st.applied
+}
+
+// VerifStreamEnd returns the offset just past the last valid entry of the
+// named stream's WAL (nil if the WAL holds no entry). Unlike wal.Latest() it
+// looks past empty newest segments (a freshly reopened WAL).
+func (db *DB) VerifStreamEnd(stream string) (wal.Offset, error) {
+	dir := filepath.Join(db.opts.Dir, "_wal", strings.ToLower(stream))
+	files, err := ioutil.ReadDir(dir)
+	if err != nil {
+		if os.IsNotExist(err) {
+			return nil, nil
+		}
+		return nil, err
+	}
+	for i := len(files) - 1; i >= 0; i-- {
+		name := files[i].Name()
+		if strings.Contains(name, ".") {
+			return nil, fmt.Errorf("unexpected (compressed?) WAL segment %v", name)
+		}
+		seq, err := strconv.ParseInt(name, 10, 64)
+		if err != nil {
+			return nil, fmt.Errorf("unexpected WAL segment %v", name)
+		}
+		f, err := os.Open(filepath.Join(dir, name))
+		if err != nil {
+			return nil, err
+		}
+		r := bufio.NewReaderSize(f, 1<<16)
+		position := int64(0)
+		head := make([]byte, 8)
+		for {
+			if _, err := io.ReadFull(r, head); err != nil {
+				break
+			}
+			length := int64(binary.BigEndian.Uint32(head))
+			if length == 0 {
+				break
+			}
+			b := make([]byte, length)
+			if _, err := io.ReadFull(r, b); err != nil {
+				break
+			}
+			if crc32.Checksum(b, crc32.MakeTable(crc32.Castagnoli)) != binary.BigEndian.Uint32(head[4:]) {
+				break
+			}
+			position += 8 + length
+		}
+		f.Close()
+		if position > 0 {
+			return wal.NewOffset(seq, position), nil
+		}
+	}
+	return nil, nil
 }
 
 // VerifTableFields returns the current field definitions of the named table
